@@ -79,6 +79,16 @@ class CaseSpec:
         names = harness_names()
         cs = casegen.gen_cases(prop, u, seed, tier, probe=run_harness)
         hide_known_witnesses(cs, u, prop)
+        if not replay:
+            # a sample of the cases is run a second time at the end, in reverse order, in the same process: the answers of
+            # the implementation must not depend on what it has been asked before (caches keyed by a type name, an
+            # address, a length ... show up as a disagreement with the model, which is a function of the line)
+            import random as _random
+            r = _random.Random('again-%s-%s' % (seed, prop))
+            idx = [k for k, m in enumerate(cs.meta) if m.get('kind') not in ('type', 'stype', 'name', 'sname') and len(cs.lines[k]) < 100000]
+            pick = sorted(r.sample(idx, min(len(idx), max(20, len(idx) // 25))), reverse=True)
+            for k in pick:
+                cs.lines.append(cs.lines[k]); cs.meta.append(dict(cs.meta[k], again=True))
         if replay:
             rp = json.load(open(replay))
             lines = rp.get('detail', {}).get('lines')
